@@ -12,7 +12,7 @@
    NOT proved here (see docs/C19.md): empymod itself (what [bipole] returns);
    that the finite-difference quotient approximates the derivative. *)
 From Coq Require Import ZArith Bool List String Reals QArith.
-From V Require Import Base.FieldSig Base.ExecQ Model.Layered Proofs.Layered.
+From V Require Import Base.FieldSig Base.ExecQ Model.Layered Proofs.Layered Proofs.LayeredMerge.
 Import ListNotations.
 Local Open Scope Z_scope.
 
@@ -95,20 +95,23 @@ Section Responses.
   Variable ellipse : F * F -> F * F -> Z -> Z -> bool.
   Variable method : string.
   Variable has_radius merge : bool.
-  Variable srcc : F * F.
+  Variable srcc : @pt3 F.                  (* src.center *)
   Variable freqs : list F.
-  Variable bipole : nat -> list F -> list F -> option (list F) ->
+  (* receiver index (type, orientation), its ABSOLUTE centre, depth, cond_h, ... *)
+  Variable bipole : nat -> @pt3 F -> list F -> list F -> option (list F) ->
                     option (list F) -> option (list F) -> list F -> list D.
   (* contract of the oracle: frequencies are computed independently *)
-  Variable bipole1 : nat -> list F -> list F -> option (list F) -> option (list F) ->
+  Variable bipole1 : nat -> @pt3 F -> list F -> list F -> option (list F) -> option (list F) ->
                      option (list F) -> F -> D.
   Hypothesis bipole_pointwise :
-    forall i d ch cv ep mp fs, bipole i d ch cv ep mp fs = map (bipole1 i d ch cv ep mp) fs.
+    forall i q d ch cv ep mp fs, bipole i q d ch cv ep mp fs = map (bipole1 i q d ch cv ep mp) fs.
 
   (* [observed] = None (no finite observation in the whole survey) or the
      finite flags per receiver and frequency.  For receiver i (centre rc) and
      frequency j: NaN (None) iff there is observed data and it is not finite
-     there; otherwise bipole of the layers extracted for (source, rc). *)
+     there; otherwise bipole, at the receiver's absolute position
+     [rec_abs srcc rc] (source centre + offset for a relative receiver), of the
+     layers extracted for (source, that absolute position). *)
   Theorem layered_is_bipole_of_layers rcs observed rows :
     (forall o i, observed = Some o -> (i < List.length rcs)%nat ->
                  List.length (nth i o []) = List.length freqs) ->
@@ -121,7 +124,7 @@ Section Responses.
       (fin = true ->
        exists e, extract_for leb lg pw g lname props ellipse method has_radius merge srcc rc = inr e /\
          nth j (nth i rows []) None =
-         Some (bipole1 i (depth_of e) (cond_h_of backward e) (cond_v_of backward vti e)
+         Some (bipole1 i (rec_abs srcc rc) (depth_of e) (cond_h_of backward e) (cond_v_of backward vti e)
                        (eperm_of vti has_mu has_eps e) (mperm_of vti has_mu e)
                        (nth j freqs dflt))).
   Proof. exact (layered_fwd_spec leb lg pw D g lname backward props vti has_mu has_eps ellipse
@@ -163,10 +166,10 @@ Section GradientSum.
   Variables (vti has_mu has_eps : bool).
   Variable ellipse : R * R -> R * R -> Z -> Z -> bool.
   Variable method : string.
-  Variable has_radius merge : bool.
-  Variable srcc : R * R.
+  Variable has_radius : bool.
+  Variable srcc : @pt3 R.
   Variable freqs : list R.
-  Variable bipole : nat -> list R -> list R -> option (list R) ->
+  Variable bipole : nat -> @pt3 R -> list R -> list R -> option (list R) ->
                     option (list R) -> option (list R) -> list R -> list (R * R).
 
   (* layered(gradient=True) = (out[0], out[2]).  Summed over x and y, layer k of
@@ -176,26 +179,116 @@ Section GradientSum.
      says what those are] -- because each receiver's weights sum to one. *)
   Theorem fd_gradient_layer_sum rds o0 o2 :
     layered_grad leb log10R pow10R g lname backward props vti has_mu has_eps ellipse method
-                 has_radius merge srcc freqs bipole (Some rds) = inr (o0, o2) ->
+                 has_radius srcc freqs bipole (Some rds) = inr (o0, o2) ->
     exists terms : list gterm,
       List.length terms = List.length rds /\
       (forall n rd, nth_error rds n = Some rd ->
          grad_rec leb log10R pow10R g lname backward props vti has_mu has_eps ellipse method
-                  has_radius merge srcc freqs bipole n rd = inr (nth n terms None)) /\
+                  has_radius srcc freqs bipole false n rd = inr (nth n terms None)) /\
       forall k, (0 <= k)%Z ->
         @zsum2 R LROps (g_nx g) (g_ny g) (fun i j => o0 i j k) = sumL (map (term_h k) terms) /\
         @zsum2 R LROps (g_nx g) (g_ny g) (fun i j => o2 i j k) = sumL (map (term_v k) terms).
   Proof. exact (layered_grad_sum leb g nx_pos ny_pos hx_pos hy_pos lname backward props vti
-                                 has_mu has_eps ellipse method has_radius merge srcc freqs
-                                 bipole rds o0 o2). Qed.
+                                 has_mu has_eps ellipse method has_radius srcc freqs
+                                 bipole false rds o0 o2). Qed.
+
+  (* whatever layered_opts['merge'] says, each receiver's gradient has one
+     entry per layer of the MODEL (the gradient branch extracts without merge) *)
+  Theorem gradient_one_entry_per_model_layer i rd im gh gv :
+    props <> [] ->
+    grad_rec leb log10R pow10R g lname backward props vti has_mu has_eps ellipse method
+             has_radius srcc freqs bipole false i rd = inr (Some (im, gh, gv)) ->
+    List.length gh = Z.to_nat (g_nz g) /\
+    (forall v, gv = Some v -> List.length v = Z.to_nat (g_nz g)).
+  Proof. exact (grad_rec_len leb log10R pow10R g lname backward props vti has_mu has_eps ellipse
+                             method has_radius srcc freqs bipole i rd im gh gv). Qed.
 
   (* weights, residual or observed missing: the gradient is zero *)
   Theorem gradient_without_data_is_zero :
     layered_grad leb log10R pow10R g lname backward props vti has_mu has_eps ellipse method
-                 has_radius merge srcc freqs bipole None = inr (zero3, zero3).
+                 has_radius srcc freqs bipole None = inr (zero3, zero3).
   Proof. exact (layered_grad_none leb g lname backward props vti has_mu has_eps ellipse method
-                                  has_radius merge srcc freqs bipole). Qed.
+                                  has_radius srcc freqs bipole). Qed.
 End GradientSum.
 
 Print Assumptions fd_gradient_layer_sum.
+Print Assumptions gradient_one_entry_per_model_layer.
 Print Assumptions gradient_without_data_is_zero.
+
+(* ---- merge=True ------------------------------------------------------------
+   extract_1d(merge=True) returns the same depth profile as merge=False:
+   values (merge_preserves_profile) and interfaces (merged_interfaces). *)
+(* the merged layer of rank #(kept layers among 0..k) - 1 holds the value of
+   cell k -- for every value list, -1 on top included *)
+Theorem merge_preserves_profile (vals : list (list R)) (nz : nat) (v : list R) (k : nat) :
+  In v vals -> (k < nz)%nat ->
+  let ind := merge_ind LRleb nz vals in
+  let r := (List.length (merge_ind LRleb (Datatypes.S k) vals) - 1)%nat in
+  nth r (take_ind ind v) 0%R = nth k v 0%R.
+Proof. exact (merge_profile vals nz v k). Qed.
+(* the first kept index is 0 and the nodes of the merged grid (origin +
+   cumulated merged thicknesses) are exactly the model's nodes at the other
+   kept indices followed by the bottom node *)
+Theorem merged_interfaces (g : @grid R) (vals : list (list R)) : (0 < g_nz g)%Z ->
+  exists rest, merge_ind LRleb (Z.to_nat (g_nz g)) vals = 0%nat :: rest /\
+    @cumsum R LROps (g_z0 g) (merge_hz g (merge_ind LRleb (Z.to_nat (g_nz g)) vals))
+    = map (fun k => node (g_z0 g) (g_hz g) (Z.of_nat k)) rest ++ [node (g_z0 g) (g_hz g) (g_nz g)].
+Proof. exact (merged_nodes g vals). Qed.
+
+(* ---- the code as found (UNFIXED variants; repaired in emg3d, see docs/C19.md) *)
+(* np.r_[-1, v] sentinel: a column [-1, 1/2] (two different layers) keeps only
+   index 1; the repaired test keeps [0; 1] and extract_core(merge=True)
+   returns both layers *)
+Theorem merge_unfixed_drops_first_layer_refuted :
+  ~ ((-1 # 1) == (1 # 2))%Q /\
+  merge_ind_unfixed Qle_bool 2 [[(-1 # 1)%Q; (1 # 2)%Q]] = [1%nat] /\
+  merge_ind Qle_bool 2 [[(-1 # 1)%Q; (1 # 2)%Q]] = [0%nat; 1%nat] /\
+  e_props (wit_ext true) = [[(-1 # 1)%Q; (1 # 2)%Q]] /\
+  e_hz (wit_ext true) = [1%Q; 2%Q].
+Proof. exact merge_witness. Qed.
+(* rec.center instead of rec.center_abs(src) for a relative receiver *)
+Theorem relative_receiver_unfixed_refuted :
+  rec_abs ((1 # 1)%Q, (2 # 1)%Q, (3 # 1)%Q) (true, ((10 # 1)%Q, 0%Q, 0%Q))
+    = ((11 # 1)%Q, (2 # 1)%Q, (3 # 1)%Q) /\
+  rec_abs_unfixed ((1 # 1)%Q, (2 # 1)%Q, (3 # 1)%Q) (true, ((10 # 1)%Q, 0%Q, 0%Q))
+    = ((10 # 1)%Q, 0%Q, 0%Q).
+Proof. exact relative_witness. Qed.
+(* gradient branch with merge passed on (grad_rec ... true): a homogeneous
+   2-layer column yields a gradient of length 1; the repaired branch (false): 2 *)
+Theorem merge_gradient_unfixed_refuted :
+  g_nz ex_grid = 2%Z /\ ex_gh_len true = Some 1%nat /\ ex_gh_len false = Some 2%nat.
+Proof. exact merge_gradient_witness. Qed.
+
+Print Assumptions merge_preserves_profile.
+Print Assumptions merged_interfaces.
+Print Assumptions merge_unfixed_drops_first_layer_refuted.
+Print Assumptions relative_receiver_unfixed_refuted.
+Print Assumptions merge_gradient_unfixed_refuted.
+
+(* ---- non-vacuity ----------------------------------------------------------- *)
+(* the hypotheses of the sections Weights / GradientSum hold for a 2 x 3 x 2 grid *)
+Example weights_hypotheses_satisfiable :
+  (1 <= g_nx exR_grid)%Z /\ (1 <= g_ny exR_grid)%Z /\
+  (forall i, (0 <= i < g_nx exR_grid)%Z -> (0 < g_hx exR_grid i)%R) /\
+  (forall j, (0 <= j < g_ny exR_grid)%Z -> (0 < g_hy exR_grid j)%R).
+Proof. exact exR_grid_ok. Qed.
+(* ... and a laterally invariant positive model on it (log-averaged map) *)
+Example lateral_invariance_satisfiable :
+  lat_inv_all exR_grid false [fun _ _ k => (IZR k + 1)%R] [fun k => (IZR k + 1)%R].
+Proof. exact exR_lat_inv. Qed.
+(* layered_fwd runs (laterally varying 2 x 1 x 2 model, method 'receiver', two
+   receivers -- the first RELATIVE to the source at (1,0,0) --, two frequencies,
+   observed finite only at (0,0)): one slot holds the oracle applied at the
+   absolute position (1/2,1/2,0) to the layers under it, all others are NaN *)
+Example layered_fwd_runs :
+  ex_fwd = inr [[Some (0%nat, ((1 # 2)%Q, (1 # 2)%Q, 0%Q), [1%Q; 2%Q], 1%Q); None]; [None; None]].
+Proof. exact ex_fwd_value. Qed.
+(* layered_grad runs with an active receiver: two non-zero layer sums *)
+Example layered_grad_runs :
+  List.length ex_grad_sums = 2%nat /\ Forall (fun q => ~ (q == 0)%Q) ex_grad_sums.
+Proof. exact ex_grad_value. Qed.
+
+Print Assumptions weights_hypotheses_satisfiable.
+Print Assumptions lateral_invariance_satisfiable.
+Print Assumptions layered_fwd_runs.
+Print Assumptions layered_grad_runs.
